@@ -30,13 +30,13 @@ CHECKS = {
     'C02': dict(
         level='exploration',
         units=[U('^TestC02$', (8, 4000), (16, 40000)), U('^TestC02_StructuredParts$', (3, 6000), (4, 150000))],
-        essential_labels=['mixed-store-kinds', 'same-kind-fast-path', 'tree-depth>=2', 'has-zero', 'has-neg', 'recycled-part', 'empty-part', 'decode-merge-edge', 'structured-parts'],
+        essential_labels=['mixed-store-kinds', 'same-kind-fast-path', 'tree-depth>=2', 'has-zero', 'has-neg', 'recycled-part', 'empty-part', 'decode-merge-edge', 'structured-parts', 'receiver-encoded-before-merge'],
         assumptions=COMMON_ASSUMPTIONS + ["dyadic bounded weights make every float sum exact, so merged and single-sketch observations are compared bit for bit"],
     ),
     'C03': dict(
         level='exploration',
         units=[U('^TestC03$', (8, 20000), (16, 400000))],
-        essential_labels=['kind:log', 'kind:linear', 'kind:cubic', 'built:alpha', 'built:gamma', 'offset:2^30', 'offset:int32-bound', 'offset:engineered-integer-boundary', 'offset:engineered-exact-hit', 'offset:small', 'offset:default', 'probe:bin-edge', 'probe:bin-edge-neighbourhood', 'probe:binade-edge', 'probe:range-end', 'top-bin-upper-bound'],
+        essential_labels=['kind:log', 'kind:linear', 'kind:cubic', 'built:alpha', 'built:gamma', 'offset:2^30', 'offset:int32-bound', 'offset:engineered-integer-boundary', 'offset:engineered-exact-hit', 'offset:small', 'offset:default', 'probe:bin-edge', 'probe:bin-edge-neighbourhood', 'probe:binade-edge', 'probe:range-end', 'top-bin-upper-bound', 'offset:engineered-edge-at-range-end'],
         assumptions=COMMON_ASSUMPTIONS + ["floating-point slack 64*2^-52*(1+|ln v|+(|i|+|offset|)*ln gamma) on accuracy and bin containment (DESIGN §1.1)", "the bin after the last indexable one is not asserted (its lower bound overflows for interpolated mappings)"],
     ),
     'C19': dict(
@@ -48,7 +48,7 @@ CHECKS = {
     'C20': dict(
         level='exploration',
         units=[U('^TestC20$', (8, 8000, 40), (16, 60000, 80)), U('^TestC20_LargeScale$', (2, 150), (4, 5000))],
-        essential_labels=['add-after-query', 'merge', 'duplicate-heavy', 'q-on-integer-rank', 'large-scale', 'batch:below-min', 'q:nan', 'size:exact-power-of-two'],
+        essential_labels=['add-after-query', 'merge', 'duplicate-heavy', 'q-on-integer-rank', 'large-scale', 'batch:below-min', 'q:nan', 'size:exact-power-of-two', 'merge:self'],
         assumptions=COMMON_ASSUMPTIONS + ["rho=q*(n-1) is accepted evaluated exactly or in binary64 (they differ only within half an ulp of an integer)", "Min/Max of an empty dataset are outside the statement and not exercised"],
     ),
     'C04': dict(
@@ -78,7 +78,7 @@ CHECKS = {
     'C06': dict(
         level='exploration',
         units=[U('^TestC06$', (8, 3000), (14, 25000)), U('^TestC06_ArbitraryWeights$', (2, 10000), (2, 100000)), U('^TestC06_FarIndexes$', (2, 1500), (2, 60000)), U('^TestC06_ObservedContent$', (2, 10000), (3, 300000)), U('^TestC06_ExactProducerLongCount$', (2, 4000), (2, 100000)), U('^TestC06_WideContiguous$', (2, 12), (4, 150))],
-        essential_labels=['layout:1', 'layout:2', 'layout:3', 'omit-mapping', 'prefix', 'concatenation', 'non-empty-receiver', 'both-sides', 'block:zero', 'variant:exact', 'target:collow', 'target:colhigh', 'target:paginated', 'source:paginated', 'arbitrary-weights', 'weight-changed-by-transform', 'weight-vanishes', 'far-indexes', 'index-delta-beyond-int32', 'second-generation', 'encoding-after-weights-underflowed-to-zero', 'observed-content', 'merge:same-kind-other-limit', 'count-block:9th-byte-top-bit'],
+        essential_labels=['layout:1', 'layout:2', 'layout:3', 'omit-mapping', 'prefix', 'concatenation', 'non-empty-receiver', 'both-sides', 'block:zero', 'variant:exact', 'target:collow', 'target:colhigh', 'target:paginated', 'source:paginated', 'arbitrary-weights', 'weight-changed-by-transform', 'weight-vanishes', 'far-indexes', 'index-delta-beyond-int32', 'second-generation', 'encoding-after-weights-underflowed-to-zero', 'observed-content', 'merge:same-kind-other-limit', 'count-block:9th-byte-top-bit', 'contiguous-block>65535-bins'],
         assumptions=COMMON_ASSUMPTIONS + ["dyadic bounded weights survive the documented (w+1)-1 transform exactly; arbitrary weights are checked bit-for-bit against (w+1)-1 without being summed"],
     ),
     'C07': dict(
@@ -90,7 +90,7 @@ CHECKS = {
     'C08': dict(
         level='fault_enumeration',
         units=[U('^TestC08$', (12, 150), None), U('^TestC08_Thorough$', None, (14, 1500)), U('^TestC08_LongVarfloats$', (3, 400), (2, 20000)), U('^TestC08_FarIndexes$', (2, 600), (2, 30000)), F('FuzzC08', 120)],
-        essential_labels=['cut-inside-bin-block', 'cut:uvarint/n', 'cut:varint/delta', 'cut:varfloat/count', 'cut-inside:mapping', 'fault:undefined-flag', 'fault:mapping-mismatch', 'fault:mapping-mismatch-offset-only', 'fault:mapping-mismatch-repeated-on-same-receiver', 'fault:mapping-missing', 'varfloat>=8-bytes', 'cut:8-of-9-varfloat-bytes', 'layout:1', 'layout:2', 'layout:3', 'producer:exact-variant'],
+        essential_labels=['cut-inside-bin-block', 'cut:uvarint/n', 'cut:varint/delta', 'cut:varfloat/count', 'cut-inside:mapping', 'fault:undefined-flag', 'fault:mapping-mismatch', 'fault:mapping-mismatch-offset-only', 'fault:mapping-mismatch-repeated-on-same-receiver', 'fault:mapping-missing', 'varfloat>=8-bytes', 'cut:8-of-9-varfloat-bytes', 'layout:1', 'layout:2', 'layout:3', 'producer:exact-variant', 'far-indexes', 'integer-field>=5-bytes'],
         assumptions=COMMON_ASSUMPTIONS + ["encodings are sampled; for each sampled encoding every cut point is enumerated (and every undefined flag at every block boundary in the thorough tier)", "arbitrary garbage is not thrown at the sketch decoders: the format lets a well-formed block describe 2^63 bins, which the property does not promise to handle gracefully"],
     ),
     'C09': dict(
@@ -108,7 +108,7 @@ CHECKS = {
     'C11': dict(
         level='exploration',
         units=[U('^TestC11$', (8, 12000), (16, 100000)), U('^TestC11_HugeTotal$', (2, 8000), (4, 150000))],
-        essential_labels=['W<1', 'one-sided', 'reached-by-reweight', 'fractional-weights', 'mode:single-light', 'mode:several-light', 'mode:huge-total', 'W>=2^53', 'pos:dense', 'pos:sparse', 'pos:paginated', 'dust-below-half-ulp-of-total'],
+        essential_labels=['W<1', 'one-sided', 'reached-by-reweight', 'fractional-weights', 'mode:single-light', 'mode:several-light', 'mode:huge-total', 'W>=2^53', 'pos:dense', 'pos:sparse', 'pos:paginated', 'dust-below-half-ulp-of-total', 'recycled-with-living-copy'],
         assumptions=COMMON_ASSUMPTIONS + ["'within one unit of weight' is taken as distance(rank, cumulative-weight interval) <= 1 (DESIGN §2 C11)"],
     ),
     'C12': dict(
@@ -120,31 +120,31 @@ CHECKS = {
     'C13': dict(
         level='exploration',
         units=[U('^TestC13$', (8, 12000), (16, 100000)), U('^TestC13_DegenerateRange$', (2, 5000), (2, 100000))],
-        essential_labels=['refused-add', 'refused-quantile', 'refused-merge', 'refused-reweight', 'refused-reweight-store-level', 'refused-constructor', 'accept-at-boundary', 'state:empty', 'state:non-empty', 'variant:exact', 'variant:plain', 'mismatch:kind', 'mismatch:alpha', 'mismatch:offset', 'mismatch:base', 'near-equal-mapping-decoded', 'degenerate-range', 'range:empty'],
+        essential_labels=['refused-add', 'refused-quantile', 'refused-merge', 'refused-reweight', 'refused-reweight-store-level', 'refused-constructor', 'accept-at-boundary', 'state:empty', 'state:non-empty', 'variant:exact', 'variant:plain', 'mismatch:kind', 'mismatch:alpha', 'mismatch:offset', 'mismatch:base', 'near-equal-mapping-decoded', 'degenerate-range', 'range:empty', 'refused-decode-of-two-mappings'],
         assumptions=COMMON_ASSUMPTIONS + ["NaN weights/factors/constructor parameters are outside the property"],
     ),
     'C14': dict(
         level='exploration',
         units=[U('^TestC14_Sketch$', (6, 400, 40), (8, 3000, 80)), U('^TestC14_Stores$', (6, 400, 40), (8, 3000, 80)), U('^TestC14_ReadOrNot$', (4, 8000), (8, 150000)), U('^TestC14_Decay$', (2, 8000), (3, 200000))],
-        essential_labels=['level:sketch', 'level:store', 'level:twin', 'read:copy', 'read:merge-argument', 'read:encode', 'read:toproto', 'read:encodeproto', 'read:changemapping', 'read:store-reads', 'read:bins', 'copy-then-mutations-on-both-sides', 'mutation-after-read-on-buffered-paginated', 'variant:exact'],
+        essential_labels=['level:sketch', 'level:store', 'level:twin', 'read:copy', 'read:merge-argument', 'read:encode', 'read:toproto', 'read:encodeproto', 'read:changemapping', 'read:store-reads', 'read:bins', 'copy-then-mutations-on-both-sides', 'mutation-after-read-on-buffered-paginated', 'variant:exact', 'decay:step-without-read', 'decay:some-bins-vanished'],
         assumptions=COMMON_ASSUMPTIONS + ["that a protobuf message is a snapshot of its source is asserted at store level (the store machines mutate the source between ToProto and MergeWithProto), not separately at sketch level"],
     ),
     'C15': dict(
         level='exploration',
         units=[U('^TestC15_Stores$', (7, 2500), (8, 25000)), U('^TestC15_Sketch$', (7, 2000), (8, 20000)), U('^TestC15_ManyPages$', (2, 400), (3, 8000))],
-        essential_labels=['level:store', 'level:sketch', 'kind:dense', 'kind:sparse', 'kind:paginated', 'kind:collow', 'kind:colhigh', 'collapsed-before-clear', 'pages-before-clear', 'h2-shifted-range', 'repeated-cycles', 'cleared-sketch-as-decode-target', 'variant:exact', 'preclear:weights-underflow-to-zero', 'preclear:infinite-weight'],
+        essential_labels=['level:store', 'level:sketch', 'kind:dense', 'kind:sparse', 'kind:paginated', 'kind:collow', 'kind:colhigh', 'collapsed-before-clear', 'pages-before-clear', 'h2-shifted-range', 'repeated-cycles', 'cleared-sketch-as-decode-target', 'variant:exact', 'preclear:weights-underflow-to-zero', 'preclear:infinite-weight', 'pages>256'],
         assumptions=COMMON_ASSUMPTIONS + ["encoded bytes of cleared vs fresh objects are not compared (the paginated store legitimately keeps its compaction threshold); decoded content is"],
     ),
     'C16': dict(
         level='exploration',
         units=[U('^TestC16_Stores$', (7, 2500), (8, 25000)), U('^TestC16_Sketch$', (7, 2000), (8, 20000)), U('^TestC16_ArbitraryFactor$', (2, 15000), (4, 300000)), U('^TestC16_OverflowingTotal$', (1, 3000), (2, 100000))],
-        essential_labels=['level:store', 'level:sketch', 'kind:dense', 'kind:sparse', 'kind:paginated', 'kind:collow', 'kind:colhigh', 'w<1', 'w>1', 'w=1', 'paginated-buffer-and-pages-at-reweight', 'collapsed-at-reweight', 'both-sides', 'zero-bucket', 'variant:exact', 'arbitrary-factor', 'factor-in-(1,1.2)'],
+        essential_labels=['level:store', 'level:sketch', 'kind:dense', 'kind:sparse', 'kind:paginated', 'kind:collow', 'kind:colhigh', 'w<1', 'w>1', 'w=1', 'paginated-buffer-and-pages-at-reweight', 'collapsed-at-reweight', 'both-sides', 'zero-bucket', 'variant:exact', 'arbitrary-factor', 'factor-in-(1,1.2)', 'overflowing-total'],
         assumptions=COMMON_ASSUMPTIONS + ["bit-for-bit comparisons use dyadic factors only (w in {2^k, 3, 1.5, 0.75, 5}) so that scaled weights stay exact; arbitrary factors and weights are judged bin by bin within 4 ulps per contribution/factor (TestC16_ArbitraryFactor)"],
     ),
     'C17': dict(
         level='exploration',
         units=[U('^TestC17$', (8, 8000), (16, 60000)), U('^TestC17_ExtremeFanout$', (3, 10), (8, 300))],
-        essential_labels=['relation:equal', 'relation:finer', 'relation:coarser', 'relation:aligned', 'identity', 'scale:1', 'scale:other', 'negative-side', 'variant:exact', 'shape:single-bin', 'shape:two-far-bins', 'source:paginated', 'target:dense', 'target:sparse', 'relation:extreme-fanout', 'fanout>2^20', 'source-offset:large', 'target-offset:large', 'magnitude:extreme'],
+        essential_labels=['relation:equal', 'relation:finer', 'relation:coarser', 'relation:aligned', 'identity', 'scale:1', 'scale:other', 'negative-side', 'variant:exact', 'shape:single-bin', 'shape:two-far-bins', 'source:paginated', 'target:dense', 'target:sparse', 'relation:extreme-fanout', 'fanout>2^20', 'source-offset:large', 'target-offset:large', 'magnitude:extreme', 'scale:bound-ratio'],
         assumptions=COMMON_ASSUMPTIONS + ["weight tolerance 64*2^-52/min(alpha1,alpha2)*W (each proportion is a ratio of differences of nearly equal bounds)", "values in [1e-4,1e4] and scale in [1e-3,1e3]: well inside both mappings' ranges, as the property requires"],
     ),
     'C18': dict(
